@@ -127,7 +127,8 @@ class Ident:
             fq = self.repo.resolve_expr(mi, v.func)
             if fq in ("flax.nnx.clone", "copy.deepcopy"):
                 # two clone calls in one statement are two objects: the position of the call is part of the identity
-                return ("clone", qual, node, getattr(v, "lineno", 0), getattr(v, "col_offset", 0))
+                # (helper expansion may give inlined calls the position of the call they replace: what is cloned is part of the identity too)
+                return ("clone", qual, node, getattr(v, "lineno", 0), getattr(v, "col_offset", 0), ast.unparse(v.args[0])[:60] if v.args else "")
             if fq and fq.startswith(self.repo.PKG + "."):
                 try:
                     m2, nd = self.repo.lookup(fq)
